@@ -74,6 +74,19 @@ def method(ex, st, recv, name, args, kwargs, node):
                 and r.note[1].t is not None:
             used('np.abs(B).argmax() -> flat C-order position of an entry of largest modulus')
             return FlatArgmax(r.note[1], ex.fresh_int('flat'))
+    if isinstance(r, VArr) and r.ndim == 1 and name in ('any', 'all') and not args and r.t is not None and r.tag in ('ivec', 'bvec', 'rvec'):
+        used('v.any() / v.all() -> some / every element is non-zero (true)')
+        n = Z(r.shape[0])
+        nz = (lambda t: t) if r.tag == 'bvec' else (lambda t: t != 0)
+        b = ex.fresh_bool(name)
+        w = ex.fresh_int('witness')
+        if name == 'any':
+            st.assume(z3.Implies(b, z3.And(0 <= w, w < n, nz(r.t[w]))),
+                      z3.Implies(z3.Not(b), z3.ForAll([_i], z3.Implies(z3.And(0 <= _i, _i < n), z3.Not(nz(r.t[_i]))), patterns=[r.t[_i]])))
+        else:
+            st.assume(z3.Implies(z3.Not(b), z3.And(0 <= w, w < n, z3.Not(nz(r.t[w])))),
+                      z3.Implies(b, z3.ForAll([_i], z3.Implies(z3.And(0 <= _i, _i < n), nz(r.t[_i])), patterns=[r.t[_i]])))
+        return b
     if isinstance(r, VArr) and name == 'dot' and len(args) == 1:
         b = st.deref(args[0])
         if r.ndim == 2 and isinstance(b, VArr) and b.ndim == 1:
